@@ -2,7 +2,7 @@
    when every cached molecule refuses the fragment). *)
 From Coq Require Import ZArith List Bool Lia.
 Import ListNotations.
-From SCMO Require Import Lib.Val Model.C06 Proofs.C06 Proofs.C06_dup Proofs.C06_main.
+From SCMO Require Import Lib.Val Model.C06 Proofs.C06_shape Proofs.C06 Proofs.C06_dup Proofs.C06_main.
 Open Scope Z_scope.
 
 (* ---------------------------------------------------------------- cap *)
@@ -31,7 +31,7 @@ Lemma cap_main c frags out k m : c_cap c = Some k -> assign c frags = Some out -
   Z.of_nat (length (m_frags m)) <= k /\ (m_ovf m <> [] -> Z.of_nat (length (m_frags m)) = k).
 Proof.
   intros Hc H Hm. pose proof H as H0. apply assign_some in H as [(Hb & -> & Hn)|(Hb & ->)]; [destruct Hm|].
-  assert (Hk : 1 <= k) by (unfold cap_bad in Hb; rewrite Hc in Hb; apply Z.leb_gt in Hb; lia).
+  assert (Hk : 1 <= k) by (rewrite cap_bad_shape, Hc in Hb; apply Z.leb_gt in Hb; lia).
   destruct (cap_inv c frags k Hc Hk) as [HX HE].
   assert (Hle : Z.of_nat (length (m_frags m)) <= k).
   { unfold assign_ok in Hm. apply in_app_or in Hm as [Hm|Hm]; auto. }
